@@ -44,6 +44,21 @@ class C02(FprCheck):
             for k in ("stereo", "counts", "include_disconnected", "rdkit_invariants", "exclude_floating", "remove_duplicate_substructs"):
                 self.count("%s:%s" % (k, o[k]))
             yield {"t": "spec", "ref": ref, "conf": ci, "tr": None, "opts": o, "queries": qs}
+        # conformers with coincident heavy atoms (distance exactly 0): the algorithm is defined on them - a pair at distance 0 is
+        # within every positive shell radius - and the library fingerprints them (with a warning)
+        refs = [r for r in self.refs() if "smiles" in r or "sdf" in r]
+        for k in range(8 if self.tier == "quick" else 100):
+            base = rng.choice(refs)
+            o = MG.gen_opts(rng)
+            o["stereo"] = rng.random() < 0.2
+            o["level"] = rng.choice([1, 2, 3, 5, -1])
+            if o["level"] == -1:
+                o["remove_duplicate_substructs"] = True
+            if rng.random() < 0.3:
+                o["radius_multiplier"] = rng.choice([0.5, 1.0, 1.718])
+            self.count("coincident-atoms")
+            yield {"t": "spec", "ref": {"overlap": base, "mode": ["pair", "pair", "allzero"][k % 3], "seed": rng.randrange(1000)}, "conf": 0, "tr": None,
+                   "opts": o, "queries": MG.gen_queries(rng, o, 1)}
 
     def impl(self, case):
         if case.get("t") == "witness":
@@ -69,16 +84,17 @@ class C02(FprCheck):
             return None
         if not MG.in_domain(mol, o):
             return None
-        a = self.robust_impl(case)
-        if a is None:
-            return None
-        if "err" in a:
-            return {"key": "fingerprinting-fails:" + a["err"], "what": "fingerprinting a sanitised molecule with a retained heavy atom raised " + a["err"]}
-        # the specification: the Lean model on the same facts
+        # the specification: the Lean model on the same facts; a case on which the *specification* changes under the 3e-14 A
+        # perturbation lies in the round-off band and is skipped - the implementation's own stability is not asked for (an
+        # implementation that loses a pair at distance exactly 0 is unstable there, and wrong)
         ans = vlib.Driver().run_lines(self.model_ops(case))
         m = self.model_answer(case, ans)
         if isinstance(m, dict) and m.get("margin"):
+            self.count("margin_discarded_prop")
             return None
+        a = MG.run_impl(mol, conf, o, case.get("queries", []))
+        if "err" in a:
+            return {"key": "fingerprinting-fails:" + a["err"], "what": "fingerprinting a sanitised molecule with a retained heavy atom raised " + a["err"]}
         if "ok" not in m or observable(m["ok"]) != observable(a["ok"]):
             lv = None
             if "ok" in m:
@@ -93,6 +109,24 @@ class C02(FprCheck):
         b = MG.run_impl(mol, conf, o, case.get("queries", []))
         if b != a:
             return {"key": "not-deterministic", "what": "two runs on the same input differ"}
+        # ... and in an object that has just processed a near twin of the molecule (an isotopologue: same atoms in the same
+        # order, same elements, charges and bonds - only an atom invariant differs): the identifiers are those of *this* molecule
+        from rdkit import Chem
+        heavy = [x.GetIdx() for x in mol.GetAtoms() if x.GetAtomicNum() > 1]
+        twin = Chem.Mol(mol)
+        at = twin.GetAtomWithIdx(heavy[len(heavy) // 2])
+        at.SetIsotope(0 if at.GetIsotope() else at.GetAtomicNum() * 2 + 1)
+        shared = MG.make_fprinter(o)
+        try:
+            shared.run(conf.GetId(), twin)
+            shared.run(conf, mol)
+            c = {"ok": MG.dump_run(shared, case.get("queries", []))}
+        except Exception as e:  # noqa: BLE001
+            c = {"err": type(e).__name__}
+        if c != a:
+            return {"key": "identifiers-differ-from-spec:after-isotopologue",
+                    "what": "a fingerprinter that has just processed an isotopologue of the molecule (same atom order, elements, charges, bonds) "
+                            "does not give the molecule the identifiers of the specification"}
         # masks remove exactly the shells whose substructure touches the mask
         fp = MG.make_fprinter(o)
         fp.run(conf, mol)
